@@ -289,6 +289,26 @@ def main():
     except subprocess.TimeoutExpired as e:
         print("TIMEOUT:", e)
         return 2
+    except Exception as e:  # noqa: BLE001
+        # an exception that escaped from the IMPLEMENTATION while the harness was driving it in-process on an in-contract input is a
+        # finding (the check could not be completed because the code raised); one that never touched /repo is a harness failure
+        import traceback
+
+        tb = traceback.format_exc()
+        if os.path.join(nv.REPO, "nucs") in tb:
+            os.makedirs(os.path.join(VERIF, "replays"), exist_ok=True)
+            rp = os.path.join(VERIF, "replays", f"{prop}-{int(time.time())}.json")
+            with open(rp, "w") as f:
+                json.dump({"property": prop, "kind": "no-failing-input-found", "tree_hash": th, "seed": seed,
+                           "no_longer_checks": [{"broken": "correspondence", "component": "the implementation raised " + type(e).__name__ +
+                                                 " while the harness drove it on generated in-contract inputs; the check could not be completed",
+                                                 "traceback": tb[-3000:]}]}, f, indent=1)
+            print(tb[-1500:])
+            print(f"VIOLATION property={prop} replay={rp} no-failing-input-found")
+            return 1
+        print("INFRASTRUCTURE FAILURE (harness exception):")
+        print(tb[-3000:])
+        return 2
     corr_diffs = result.get("corr_diffs", [])
     violations = result.get("violations", [])
     known = result.get("known", [])
